@@ -325,11 +325,9 @@ void zuc_encrypt(ZUC_STATE *state, const uint8_t *in, size_t inlen, uint8_t *out
 		}
 		LFSR[15] = V;
 
-		// xor with plaintext
-		Z ^= GETU32(in);
-
-		// output ciphertext
+		// xor with plaintext, output ciphertext
 		if (inlen >= 4) {
+			Z ^= GETU32(in);
 			PUTU32(out, Z);
 			inlen -= 4;
 			in += 4;
@@ -338,9 +336,10 @@ void zuc_encrypt(ZUC_STATE *state, const uint8_t *in, size_t inlen, uint8_t *out
 			uint8_t word[4];
 			size_t i;
 
+			// only inlen bytes of the last word are available
 			PUTU32(word, Z);
 			for (i = 0; i < inlen; i++) {
-				out[i] = word[i];
+				out[i] = in[i] ^ word[i];
 			}
 			break;
 		}
